@@ -83,3 +83,22 @@ fn lemma_div_bracket64() {
     assert!(0 <= r && r < d && q >= 0, "range of quotient and remainder");
     assert!(div_bracket(n, d, q), "power-of-two bracket of the quotient");
 }
+
+// generic-width leaves (the functions do not depend on N; two instantiations each)
+// @h name=leaf_pxe2_separate_bits_tmp props=C13,C14 fn=PxE2::separate_bits_tmp tier=quick t=300 kind=contract unwind=36
+#[kani::proof_for_contract(PxE2::<8>::separate_bits_tmp)]
+#[kani::unwind(36)]
+fn leaf_pxe2_separate_bits_tmp() {
+    PxE2::<8>::separate_bits_tmp(kani::any());
+}
+// @h name=leaf_pxe1_separate_bits_tmp props=C13,C14 fn=PxE1::separate_bits_tmp tier=quick t=300 kind=contract unwind=36
+#[kani::proof_for_contract(PxE1::<8>::separate_bits_tmp)]
+#[kani::unwind(36)]
+fn leaf_pxe1_separate_bits_tmp() {
+    PxE1::<8>::separate_bits_tmp(kani::any());
+}
+// @h name=leaf_pxe2_calculate_regime props=C13,C14 fn=PxE2::calculate_regime tier=quick t=300 kind=contract
+#[kani::proof_for_contract(PxE2::<32>::calculate_regime)]
+fn leaf_pxe2_calculate_regime() {
+    PxE2::<32>::calculate_regime(kani::any());
+}
